@@ -17,7 +17,7 @@ DOC = {
         'C03.R2': 'intermediate stages filter with the permissive matches (re-evaluates C06.R3 intermediate clauses)',
         'C03.R3': 'the last stage on every branch filters with matches_strictly (re-evaluates C06.R3)',
         'C03.R4': 'rehash: groups rejected by the pre-filter are chained to the regrouped ones before the post-filter; every file of an accepted group is handed to the hashing threads',
-        'C03.R5': 'hashing task: send only on Some(hash), for every file of the inode group; None drops only that inode group',
+        'C03.R5': 'hashing task: send only on Some(hash), for every remaining file of the inode group; a path that cannot be hashed is dropped alone and the next path of the inode is tried; when none can be hashed only that inode group is dropped',
         'C03.R6': 'deduplicate: repeated entries collapsed with unique_by(path hash) (global), never an adjacent-only dedup; entries bucketed by location are all re-emitted',
         'C03.R7': 'a FileInfo field changed by the hash function and used in the group key is propagated to every path of the inode (re-evaluates C01.R6)',
         'C03.R9': 'the path identity key (Path::hash128, used by deduplicate, the visited set of the walk and the temp-file names) delimits the components it hashes: it delegates to a derived/std Hash impl or writes a length prefix / terminator next to every raw write',
@@ -148,16 +148,26 @@ def r5(ctx):
     H = hf[0]
     # match on the Option result
     some_t = none_t = None
-    for (bbx, idx, what) in task.operand_uses(H.dest[0]):
-        if what[0] == 'stmt' and what[1]['rv']['k'] == 'disc':
-            dl = what[1]['p'][0]
-            for (b2, i2, w2) in task.operand_uses(dl):
-                if w2[0] == 'switch':
-                    t = w2[1]
-                    m = dict(zip(t['vals'], t['tgts']))
-                    some_t = m.get(1, t['tgts'][-1] if 1 not in m else None)
-                    none_t = m.get(0, t['tgts'][-1] if 0 not in m else None)
+    holders = forward_locals(task, H.dest[0]) | {H.dest[0]}
+    for hl in holders:
+        for (bbx, idx, what) in task.operand_uses(hl):
+            if what[0] == 'stmt' and what[1]['rv']['k'] == 'disc' and what[1]['rv']['p'][0] == hl and not what[1]['rv']['p'][1]:
+                dl = what[1]['p'][0]
+                for (b2, i2, w2) in task.operand_uses(dl):
+                    if w2[0] == 'switch':
+                        t = w2[1]
+                        m = dict(zip(t['vals'], t['tgts']))
+                        st_ = m.get(1, t['tgts'][-1] if 1 not in m else None)
+                        nt_ = m.get(0, t['tgts'][-1] if 0 not in m else None)
+                        if st_ is not None and task.dominates(st_, send.bb):
+                            some_t, none_t = st_, nt_
     ok = some_t is not None and task.dominates(some_t, send.bb) and (none_t is None or send.bb not in task.reachable(none_t))
+    # a path of the inode that cannot be hashed does not take its siblings with it: the hash function is retried with the next path
+    retried = any(H.bb in task.reachable(x) for x in task.succs(H.bb))
+    rm = [c for c in task.calls(r'Vec<.*>::(remove|swap_remove|pop)$|Vec::<T, A>::(remove|swap_remove|pop)$|VecDeque.*::pop_front$') if H.bb in task.reachable(c.bb) and c.bb in task.reachable(H.bb)]
+    ctx.check(retried and bool(rm), rule, task.path + '|next-path-on-failure', H.where(), 'when the hashed path fails it is removed from the inode group and the next path is hashed',
+              'only the first path of an inode group (hard links; with -S a link and its target) is ever opened: if that path vanished or became unreadable after the scan, all the other paths of the file '
+              'are dropped with it - silently for a vanished path - although they exist and are readable (`snap1..3/data` removed during the run: `snap4/data` and `copy/b` are not reported)')
     ctx.check(ok, rule, task.path + '|send-only-on-some', send.where(), 'files are sent only when the hash is Some', 'files can be sent without a hash / or are not sent on Some')
     # every file of the inode group is sent: the loop iterates the whole `fg` vector; the send is in the loop body on every iteration
     it = [c for c in task.calls(r'IntoIterator>::into_iter$') if any(n == 'fg' for _, n in backslice(task, [c.args[0]]).upvars)]
